@@ -22,7 +22,7 @@ RULE = ('one evaluation = one resource supplied through one route (plain xml, .g
         'plain file; distinct = distinct (resource, route)')
 ASSUMPTIONS = ['gzip / xz / tar byte formats and tempfile are the standard library\'s; exercised, not modelled']
 
-ROUTES = ['xml', 'xml-nl', 'gz', 'gz-noname', 'xz', 'pkg', 'col', 'tar-file', 'tgz-file', 'txz-file', 'tar-pkg', 'tgz-pkg', 'tar-col', 'txz-col', 'mem']
+ROUTES = ['xml', 'xml-nl', 'gz', 'gz-noname', 'xz', 'pkg', 'col', 'col-dot', 'tar-file', 'tgz-file', 'txz-file', 'tar-pkg', 'tgz-pkg', 'tar-col', 'txz-col', 'mem']
 
 
 def sha(path):
@@ -83,10 +83,10 @@ def build_route(d, route, res, k):
         (pk / 'citation.bib').write_text('@misc{x}')
         return pk
 
-    def mkcol(where):
+    def mkcol(where, pkgname='the-package'):
         col = where / 'collection'
         col.mkdir()
-        mkpkg(col, 'the-package')
+        mkpkg(col, pkgname)
         (col / 'README.txt').write_text('collection readme')
         (col / 'not-a-package').mkdir()
         (col / 'not-a-package' / 'notes.txt').write_text('nothing here')
@@ -95,6 +95,9 @@ def build_route(d, route, res, k):
         return mkpkg(base), None
     if route == 'col':
         return mkcol(base), None
+    if route == 'col-dot':
+        # package directories are recognised by what they contain, whatever they are called
+        return mkcol(base, '.wn-' + ['data', 'x.y', 'pkg 1'][k % 3]), None
     kind, what = route.split('-')
     mode = {'tar': 'w', 'tgz': 'w:gz', 'txz': 'w:xz'}[kind]
     stage = base / 'stage'
